@@ -9,6 +9,7 @@ CONSTANTS
   MaxData = 2
   MaxIx = 2
   MaxDepth = 3
+  CellMask = TRUE
   Valueless = TRUE
   Deviations = {"EmptyValuesUnreadable"}
 INVARIANT LengthsAgree
